@@ -187,6 +187,17 @@ impl Engine for C06 {
                 Doc::from_str(&docgen::feature_doc(&mut w, true, true)),
                 docgen::draw_cfg(&mut c, false),
             ),
+            5 if index % 16 == 13 => {
+                let mut d = docgen::failing_doc(&mut w);
+                for _ in 0..40 {
+                    if d.1.starts_with("multi-") {
+                        break;
+                    }
+                    d = docgen::failing_doc(&mut w);
+                }
+                (format!("failing:{}", d.1), Doc::from_str(&d.0), Cfg::default())
+            }
+            6 if index % 16 == 6 => ("real-svg".to_string(), Doc::from_str(&docgen::real_svg_doc(&mut w)), docgen::draw_cfg(&mut c, false)),
             5 => {
                 // multi-error document: several unresolvable elements => MultiError rendering
                 let n = 2 + w.usize(6);
@@ -317,6 +328,10 @@ impl Engine for C06 {
                     let reps = inc.repeats as usize + 1;
                     let stack = if inc.stack_mib == 0 { STACK_MAIN } else { (inc.stack_mib as usize) << 20 };
                     let interfere = inc.interfere;
+                    let chunked = j % 3 == 1;
+                    if chunked {
+                        res.stats.probe("input_delivered_in_small_chunks");
+                    }
                     let other = scn.other_doc.clone();
                     if interfere != 0 {
                         res.stats.probe("history_before_transform_on_same_thread");
@@ -357,6 +372,17 @@ impl Engine for C06 {
                             // alternate the two library entry points
                             let o = if r % 2 == 1 {
                                 fe_str(&doc, &cfg).unwrap_or_else(|| fe_stream_plain(&doc, &cfg).0)
+                            } else if chunked {
+                                // the same bytes delivered in small pieces
+                                let rp = crate::simio::ReadPlan {
+                                    chunks: vec![5, 1, 60, 3],
+                                    ..Default::default()
+                                };
+                                let wp = crate::simio::WritePlan {
+                                    accepts: vec![7, 2],
+                                    ..Default::default()
+                                };
+                                fe_stream(&doc, &cfg, &rp, &wp, None).outcome
                             } else {
                                 fe_stream_plain(&doc, &cfg).0
                             };
